@@ -963,20 +963,20 @@ Proof. intros. unfold set_one in *. eapply user_gain_kept; eauto using edfa_sele
 (* ------------------------------------------------------------------ multiband OMS: the budget closes in every band *)
 (* each band amplifier of a multiband OMS is designed by the same set_one_amplifier: its saturation / VOA / operator
    clauses are those of set_one_gen (dp_saturation, voa_rule, user_*_kept) with a sound selector *)
-Lemma band_selector_sound : forall c lib redfa prev b a, sel_sound lib (c_ext c) (band_selector c lib redfa prev b a).
+Lemma band_selector_sound : forall c lib redfa pc prev b a, sel_sound lib (c_ext c) (band_selector c lib redfa pc prev b a).
 Proof.
-  intros c lib redfa prev b a g pt s red cr H. unfold band_selector in H.
+  intros c lib redfa pc prev b a g pt s red cr H. unfold band_selector in H.
   match type of H with bind ?r _ = _ => destruct r as [[s' red'] | e] eqn:E end; cbn [bind] in H; [| discriminate].
   injection H as <- <- _. unfold band_select in E.
   destruct (select_fallback _ _ _ _ _ _ _ _ E) as (Hin & Hred & _).
   split; [| exact Hred]. apply pool_subset in Hin. apply filter_In in Hin. tauto.
 Qed.
 
-Lemma mb_set_length : forall c lib nl tp tp_arg redfa prev bis st amps rs,
-  mb_set c lib nl tp tp_arg redfa prev bis st amps = Ok rs ->
+Lemma mb_set_length : forall c lib nl tp tp_arg redfa pc prev bis st amps rs,
+  mb_set c lib nl tp tp_arg redfa pc prev bis st amps = Ok rs ->
   length rs = length bis /\ length st = length bis /\ length amps = length bis.
 Proof.
-  intros c lib nl tp tp_arg redfa prev bis.
+  intros c lib nl tp tp_arg redfa pc prev bis.
   induction bis as [| b bs IH]; intros st amps rs H.
   - destruct st as [| [? ?] ?]; destruct amps; cbn in H; try discriminate. injection H as <-. auto.
   - destruct st as [| [pdp pvoa] ss]; [cbn in H; discriminate |].
@@ -987,13 +987,13 @@ Proof.
     injection H as <-. destruct (IH ss rest rs1 E2) as (L1 & L2 & L3). cbn [length]. repeat split; lia.
 Qed.
 
-Lemma mb_set_nth : forall c lib nl tp tp_arg redfa prev bis st amps rs k,
-  mb_set c lib nl tp tp_arg redfa prev bis st amps = Ok rs -> (k < length bis)%nat ->
+Lemma mb_set_nth : forall c lib nl tp tp_arg redfa pc prev bis st amps rs k,
+  mb_set c lib nl tp tp_arg redfa pc prev bis st amps = Ok rs -> (k < length bis)%nat ->
   exists sel, sel_sound lib (c_ext c) sel /\
     set_one_gen c lib (bi_pref_total (nth k bis (mkBI 0 0 0))) (fst (nth k st (0, 0))) (snd (nth k st (0, 0)))
                 nl tp tp_arg sel (nth k amps dummy_ampn) = Ok (nth k rs (dummy_damp, 0, 0)).
 Proof.
-  intros c lib nl tp tp_arg redfa prev bis.
+  intros c lib nl tp tp_arg redfa pc prev bis.
   induction bis as [| b bs IH]; intros st amps rs k H Hk; [cbn in Hk; lia |].
   destruct st as [| [pdp pvoa] ss]; [cbn in H; discriminate |].
   destruct amps as [| a rest]; [cbn in H; discriminate |].
@@ -1008,13 +1008,13 @@ Qed.
 
 Lemma mb_node_set : forall c lib groups nl tp tp_arg prev next nd bis st amps rs,
   mb_node c lib groups nl tp tp_arg prev next nd bis st amps = Ok rs ->
-  exists redfa, mb_set c lib nl tp tp_arg redfa prev bis st amps = Ok rs.
+  exists redfa pc, mb_set c lib nl tp tp_arg redfa pc prev bis st amps = Ok rs.
 Proof.
   intros c lib groups nl tp tp_arg prev next nd bis st amps rs H. unfold mb_node in H.
   match type of H with bind ?r _ = _ => destruct r as [bts | e] end; cbn [bind] in H; [| discriminate].
   match type of H with bind ?r _ = _ => destruct r as [[mr redfa] | e] end; cbn [bind] in H; [| discriminate].
   match type of H with bind ?r _ = _ => destruct r as [rs' | e] eqn:E end; cbn [bind] in H; [| discriminate].
-  destruct (common_groups groups _); [discriminate |]. injection H as <-. exists redfa. exact E.
+  destruct (common_groups groups _); [discriminate |]. injection H as <-. eexists redfa, _. exact E.
 Qed.
 
 
@@ -1037,9 +1037,9 @@ Proof.
       match type of Hd with bind ?r _ = _ => destruct r as [rs | err] eqn:EN end; cbn [bind] in Hd; [| discriminate].
       match type of Hd with bind ?r _ = _ => destruct r as [dss' | err] eqn:ED end; cbn [bind] in Hd; [| discriminate].
       injection Hd as <-.
-      destruct (mb_node_set _ _ _ _ _ _ _ _ _ _ _ _ _ EN) as [redfa ES].
-      destruct (mb_set_length _ _ _ _ _ _ _ _ _ _ _ ES) as (L1 & L2 & L3).
-      destruct (mb_set_nth _ _ _ _ _ _ _ _ _ _ _ k ES Hk) as (sel & _ & S1).
+      destruct (mb_node_set _ _ _ _ _ _ _ _ _ _ _ _ _ EN) as (redfa & pc & ES).
+      destruct (mb_set_length _ _ _ _ _ _ _ _ _ _ _ _ ES) as (L1 & L2 & L3).
+      destruct (mb_set_nth _ _ _ _ _ _ _ _ _ _ _ _ k ES Hk) as (sel & _ & S1).
       destruct (nth k rs (dummy_damp, 0, 0)) as [[d dp] voa] eqn:En.
       destruct (set_one_budget _ _ _ _ _ _ _ _ _ _ _ _ _ S1) as [Hg Ho].
       assert (Ed : nth k (map (fun r => fst (fst r)) rs) dummy_damp = d).
@@ -1078,8 +1078,8 @@ Theorem mb_node_within_pmax : forall c lib groups nl tp tp_arg prev next nd bis 
                  bi_pref_total (nth k bis (mkBI 0 0 0)) + d_dp d <= a_pmax params.
 Proof.
   intros c lib groups nl tp tp_arg prev next nd bis st amps rs k Hpm Hk H. cbv zeta.
-  destruct (mb_node_set _ _ _ _ _ _ _ _ _ _ _ _ _ H) as [redfa ES].
-  destruct (mb_set_nth _ _ _ _ _ _ _ _ _ _ _ k ES Hk) as (sel & Hs & S1).
+  destruct (mb_node_set _ _ _ _ _ _ _ _ _ _ _ _ _ H) as (redfa & pc & ES).
+  destruct (mb_set_nth _ _ _ _ _ _ _ _ _ _ _ _ k ES Hk) as (sel & Hs & S1).
   destruct (nth k rs (dummy_damp, 0, 0)) as [[d dp] voa]. cbn [fst].
   eapply total_power_within_pmax; [exact Hs | left; exact Hpm | exact S1].
 Qed.
